@@ -380,7 +380,7 @@ def rand_template(draw: Any, tidx: int, depth: int, names: str, mark: str, tname
                 else:
                     body.append(kb)
         body.append(["t", f"[/{name}]"])
-        req = draw(st.integers(0, 29)) == 0
+        req = draw(st.integers(0, 44)) == 0
         endname = name if draw(st.booleans()) else None
         return ["b", name, req, body, endname]
 
@@ -524,9 +524,6 @@ class C08(Prop):
     hang_is_violation = True
     batch = 300
 
-    def __init__(self) -> None:
-        self._evals = 0
-
     def n_random(self, tier: str) -> int:
         return 6000 if tier == "quick" else 200000
 
@@ -621,6 +618,7 @@ class C08(Prop):
         problems: dict[str, tuple[str, list[str], str]] = {}  # bucket -> (oracle, modes, detail)
 
         def add(bucket: str, oracle: str, mode: str, detail: str) -> None:
+            bucket = bucket.replace("_async", "")  # the sync and async twins of a frame are one root cause
             if bucket in problems:
                 problems[bucket][1].append(mode)
             else:
